@@ -125,6 +125,14 @@ def main():
         if not os.path.exists(core.DRIVER):
             print("infrastructure: driver not built\n" + out[-2000:])
             return 2
+    # thorough tier: independent re-check of the compiled module with leanchecker
+    leanchecker = None
+    if not args.no_lean and tier == 'thorough' and lean['rc'] == 0:
+        rc2, out2 = leanaudit.sh("lake env leanchecker HealSparse.Props.%s" % pid, timeout=1800)
+        leanchecker = {'rc': rc2, 'tail': out2[-300:]}
+        if rc2 != 0:
+            lean['rc'] = rc2
+            lean['log'] = (lean.get('log') or '') + '\nleanchecker: ' + out2[-1500:]
     obligations = len(lean['theorems'])
     discharged = sum(1 for t in lean['theorems'] if t['ok'])
     lean_broken = (not args.no_lean) and (lean['rc'] != 0 or discharged != obligations or forbidden)
@@ -221,6 +229,7 @@ def main():
             ] + list(getattr(mod, 'TRUSTED', [])),
             'theorems': lean['theorems'],
             'forbidden_tokens': forbidden,
+            'leanchecker': leanchecker,
             'generated': gen_info,
             'evaluations': len(allh),
             'distinct_nontrivial': len(nontriv),
